@@ -5,8 +5,11 @@ CONSTANTS
   Cap <- MCCap
   Mode = "off"
   Lazy = TRUE
-  MaxOps = 5
+  MaxOps = 6
   MaxHeld = 2
+  OpSet = {"debit", "local", "retain", "finish"}
+  Atomic = TRUE
+  GtBug = FALSE
 INIT Init
 NEXT Next
 CHECK_DEADLOCK FALSE
